@@ -19,14 +19,14 @@ MANIFEST = {
 THEOREMS = ['C09.sasl_required_safe', 'C09.sasl_required_safe_real', 'C09.auth_only_in_exchange', 'C09.response_only_by_authenticate',
             'C09.cap_end_needs_auth', 'C09.sts_parse', 'C09.stsInt_none',
             'C09.sts_store_only_secure', 'C09.sts_store_only_secure_stub', 'C09.sts_store_only_secure_msg', 'C09.sts_store_only_secure_lines',
-            'C09.sts_store_only_secure_run', 'C08.sts_no_downgrade_real', 'C08.join_only_after_motd_real', 'C09.restart_pins_policy', 'C09.sts_insecure_upgrade',
+            'C09.sts_store_only_secure_run', 'C08.sts_no_downgrade_real', 'C08.join_only_after_motd_real', 'C09.restart_pins_policy', 'C09.connect_failure_schedules', 'C09.sts_insecure_upgrade',
             'C09.upgrade_reconnect', 'C09.flush_not_connected', 'C09.upgrade_next_server', 'C09.forced_tls_verified',
             'C09.sts_applied', 'C09.sts_not_expired_without_disconnect', 'C09.sts_expired_dropped',
             'C09.sts_stored_policy_applied', 'C09.connectTo_host']
 TRUSTED = c08.TRUSTED + ['fake socket / patched utils.net.getSocket, getAddressFromHostname, ssl_wrap_socket (TLS itself is outside: the claim is which verify flag and which port are used)']
-ASSUMPTIONS = c08.ASSUMPTIONS + ['STS policy integers are ASCII, fewer than 4300 digits', 'one driver per network; connect() to the fake socket always succeeds']
+ASSUMPTIONS = c08.ASSUMPTIONS + ['STS policy integers are ASCII, fewer than 4300 digits', 'one driver per network; connect() to the fake socket succeeds unless the script makes it refuse']
 RULE = ('(required) the C08 adversarial / conformant / mixed script generators with sasl.required forced on, servers that omit sasl, NAK it, '
-        'fail every mechanism or skip CAP; (real-driver) a real SocketDriver over a fake socket, with restarts of the process in between (networks database written to its file and read back, new Irc and driver; restart_pins_policy): STS policy strings from a grammar with omissions / '
+        'fail every mechanism or skip CAP; (real-driver) a real SocketDriver over a fake socket, with refused connections / TLS that cannot be set up (ssl.authorityCertificate = file or directory; the real utils.net.ssl_wrap_socket runs over a stand-in SSL context that records what would be verified) and restarts of the process in between (networks database written to its file and read back, new Irc and driver; restart_pins_policy): STS policy strings from a grammar with omissions / '
         'garbage / duplicates x connection kind {cleartext, TLS unverified, TLS verified, fingerprints, forced by a stored policy} x stored-policy age '
         'x disconnect history x due/not-due reconnects x several lines per recv(); after every operation the canonical observation (driver calls, sockets '
         'opened with port/TLS/verify, bytes per socket, Irc state, networks data base, server list) is compared with the model. Non-trivial = has a tag.')
@@ -57,7 +57,7 @@ def explore(ctx, n_req, n_conf, n_real, stream='c09'):
     for _ in range(n_real):
         run = c08.script_real(r, c08.gen_real_cfg(r), r.randint(1, 8))
         cases.append(c08.make_real_case(run, 'real-driver',
-                     preds=('sts_insecure_upgrade', 'sts_store_only_secure', 'sts_applied', 'sasl_required_safe', 'driver_crash')))
+                     preds=('sts_insecure_upgrade', 'sts_store_only_secure', 'sts_applied', 'sasl_required_safe', 'driver_crash', 'forced_tls_verified')))
     return cases
 
 def make_req_case(run, kind, stuck=False):
